@@ -215,7 +215,14 @@ func (w *vfC17World) stateKey() string {
 	fmt.Fprintf(&sb, "%v|", w.Collide)
 	for i := range w.Ch {
 		c := &w.Ch[i]
-		fmt.Fprintf(&sb, "%v,%q,%d,%d,%q,%v,%d,%d,%v,%d,%d,[", c.Exists, c.Epoch, c.Top, c.Ver, c.VerEpoch, c.ExpHas, c.Exp, c.ExpQ, c.RmHas, c.Rm, c.RmQ)
+		exp, expQ, rm, rmQ := c.Exp, c.ExpQ, c.Rm, c.RmQ
+		if !c.ExpHas { // stale deadlines carry no information
+			exp, expQ = 0, 0
+		}
+		if !c.RmHas {
+			rm, rmQ = 0, 0
+		}
+		fmt.Fprintf(&sb, "%v,%q,%d,%d,%q,%v,%d,%d,%v,%d,%d,[", c.Exists, c.Epoch, c.Top, c.Ver, c.VerEpoch, c.ExpHas, exp, expQ, c.RmHas, rm, rmQ)
 		for _, e := range c.List {
 			fmt.Fprintf(&sb, "%d:%s:%d ", e.Off, e.Data, e.Ver)
 		}
